@@ -155,6 +155,8 @@ def _build(cube, kw):
             e = 'e%d%d' % (i, j)
             if (kw[e] if e in kw else (e in cube.get('edges', ()))):
                 link(nodes[i], nodes[j])
+    if kw.get('swap', False) and kw.get('rb', True):
+        a1.compromise(nodes[n - 1])             # the later-listed attacker compromises the shared node first
     for i in range(n):
         r = 'r%d' % i
         if (kw[r] if r in kw else (i == 0)):
@@ -228,9 +230,9 @@ def queries(tier):
     if tier == 'quick':
         n = 2
         ebits = ['e%d%d' % (i, j) for i in range(n) for j in range(n)]
-        ps = [I('tg0', 0, 2), I('ex0', 0, 2), I('tt0', 0, 2), B('r0'), B('r1'), B('ep'), B('rm')] + [B(e) for e in ebits]
+        ps = [I('tg0', 0, 2), I('ex0', 0, 2), I('tt0', 0, 2), B('r0'), B('r1'), B('ep'), B('rm'), B('swap')] + [B(e) for e in ebits]
         qs.append(Query(name='struct', body=body_struct, params=ps, cubes=[{'n': n}], split=['tg0', 'ex0'],
-                        pre=['%s <= 2' % ' + '.join(ebits), 'not rm or (r0 and not r1)'], timeout=400,
+                        pre=['%s <= 2' % ' + '.join(ebits), 'not rm or (r0 and not r1)', 'not swap or (r1 and not rm and %s == 0)' % ' + '.join(ebits)], timeout=400,
                         witnesses=[({'n': n}, {p.name: (1 if p.typ == 'int' else True) for p in ps})],
                         bound='2 nodes; node 0 with every tag/extras/TTC pick (%d combos), node 1 rich; <= 2 edges incl. self-loops; '
                               'two attackers, every reached set of a0, entry points on/off' % 27))
@@ -242,7 +244,7 @@ def queries(tier):
     else:
         n = 3
         ebits = ['e%d%d' % (i, j) for i in range(n) for j in range(n)]
-        ps = [I('tg0', 0, 2), I('ex0', 0, 2), I('tt0', 0, 2), I('tt1', 0, 2), B('v0'), B('r0'), B('r1'), B('r2'), B('ep'), B('rb'), B('rm')] + \
+        ps = [I('tg0', 0, 2), I('ex0', 0, 2), I('tt0', 0, 2), I('tt1', 0, 2), B('v0'), B('r0'), B('r1'), B('r2'), B('ep'), B('rb'), B('rm'), B('swap')] + \
              [B(e) for e in ebits]
         qs.append(Query(name='struct', body=body_struct, params=ps, cubes=[{'n': n}], split=['tg0', 'ex0', 'tt0', 'tt1'],
                         pre=['%s <= 2' % ' + '.join(ebits)], timeout=1700,
